@@ -2,6 +2,7 @@
 the main search thread's nodes (h_cos); limits handed to the search and every stop test are observed through hooks."""
 import concurrent.futures
 import math
+import re
 import os
 import random
 
@@ -38,7 +39,7 @@ def gen_script(rnd):
         fen = rnd.choice(FENS_W if white else FENS_B)
         lines.append("best %d | position fen %s" % (nbest, fen))
         kind = rnd.choice(["movetime", "clock", "clock", "clock", "ponderhit", "stop"])
-        sd = dict(kind=kind, white=white, buffer=buffer_time)
+        sd = dict(kind=kind, white=white, buffer=buffer_time, maxnps=maxnps)
         edge = [1, 2, 9, 10, buffer_time - 1, buffer_time, buffer_time + 1, 2 * buffer_time]
         def clockval():
             return max(1, rnd.choice(edge)) if rnd.random() < .3 else logu(rnd, 1, 3000000 if rnd.random() < .1 else 20000)
@@ -69,6 +70,35 @@ def gen_script(rnd):
     return lines, searches, threads, maxnps
 
 
+def poll_points(seg, idx_best, sd, t_go):
+    """virtual times at which the main search thread looked at its limits during one search (stop tests, and the end of
+    throttle sleeps inside a stop test)"""
+    polls = []
+    prev = None
+    # the node count the engine reports at the end bounds the count at any earlier throttle sleep: a sleep is justified by the NPS cap
+    # only while (time since go) * MaxNPS <= nodes * 1000
+    nfinal = 0
+    for r in seg[:idx_best]:
+        m = re.match(r"info nodes (\d+) ", r[4]) if r[0] == "OUT" else None
+        if m:
+            nfinal = int(m.group(1))
+    for r in seg[:idx_best]:
+        if r[0] == "POLL":
+            polls.append(r[2])
+        elif r[0] == "WAKE" and prev in ("POLL", "WAKE") and sd.get("maxnps") and (r[2] - t_go) / 1000.0 <= nfinal * 1000.0 / sd["maxnps"] + 1:
+            # a MaxNPS throttle sleep inside the stop test: the test ends when the thread wakes up, so the sleep is part of the
+            # interval between this stop test and the next time the search can notice the deadline
+            polls.append(r[2])
+        if r[0] in ("POLL", "WAKE"):
+            prev = r[0]
+    return polls
+
+
+def interval(pts):
+    """largest gap between consecutive observation points, or None when fewer than two stop tests make an interval observable"""
+    return max(b - a for a, b in zip(pts, pts[1:])) if len(pts) >= 3 else None
+
+
 def judge(recs, result, searches):
     v = []
     if result is None or not result.startswith("RESULT ok"):
@@ -76,6 +106,18 @@ def judge(recs, result, searches):
     # split the trace per go
     gos = [i for i, r in enumerate(recs) if r[0] == "IN" and r[4].startswith("go")]
     stats = dict(limits=0, maxgap_us=0, searches=0, polls=0)
+    known = []
+    for k, gi in enumerate(gos):
+        if k >= len(searches):
+            break
+        end = gos[k + 1] if k + 1 < len(gos) else len(recs)
+        seg = recs[gi:end]
+        best = next((r for r in seg if r[0] == "OUT" and r[4].startswith("bestmove")), None)
+        if best is not None:
+            g = interval([recs[gi][2]] + poll_points(seg, seg.index(best), searches[k], recs[gi][2]))
+            if g is not None:
+                known.append(g)
+    G_run = max(known) if known else 10000
     for k, gi in enumerate(gos):
         if k >= len(searches):
             break
@@ -89,11 +131,13 @@ def judge(recs, result, searches):
             continue
         t_best = best[2]
         idx_best = seg.index(best)
-        polls = [r[2] for r in seg[:idx_best] if r[0] == "POLL"]
+        polls = poll_points(seg, idx_best, sd, t_go)
         # one polling interval = the largest gap between consecutive stop tests of the main search thread (incl. go -> first test);
         # a search without any stop test is shorter than one interval of 1000 nodes (10 ms of virtual time)
+        # A search that ended before its second stop test cannot show its own interval: the interval of the process (same
+        # Threads/MaxNPS configuration for every search of a script) is used, 1000 nodes = 10 ms of virtual time if none was observable.
         pts = [t_go] + polls
-        G = max([b - a for a, b in zip(pts, pts[1:])] + [0]) if polls else 10000
+        G = max(interval(pts) or 0, G_run)
         if sd["kind"] == "ponderhit":
             G += 10000      # the engine's ponder wait loop sleeps 10 ms per iteration
         stats["maxgap_us"] = max(stats["maxgap_us"], G); stats["polls"] += len(polls); stats["searches"] += 1
